@@ -1,6 +1,6 @@
 // C06: matrix inversion returns a true inverse, or a clean singular outcome.
 //
-// For Matrix22/33/44 x float/double the harness builds matrices from ten classes (see gen_core),
+// For Matrix22/33/44 x float/double the harness builds matrices from eleven classes (see gen_core),
 // optionally embeds them as the linear part of an affine matrix (last column (0,..,0,1), which selects
 // the fast path of Matrix33/44::inverse), optionally perturbs that column by one ulp or replaces one of
 // its entries (general path), and checks, against the exact inverse X* computed in __float128 by pivoted
@@ -18,6 +18,18 @@
 //
 // K = 32.  Measured worst max|X-X*| / (cond*eps*max|X*|) on the unchanged tree (build with -DC06_MEASURE)
 // is listed next to C06_K below.
+//
+// Candidate genuine defect found by this check (libFuzzer first, then the near_rank_1 class): the 3x3 cofactor
+// expansion used by Matrix33::inverse (general path) and Matrix44::inverse (affine path) loses the determinant to
+// cancellation when the matrix has two small singular values; e.g. the affine Matrix44f with linear part
+// [a a a | a a+d a | a a a+d], a = 0.998046875, d = 2^-13 (cond_inf = 9.8e4) makes inverse() return the identity.
+// Such failures carry the key "inverse-cofactor3x3-det-cancellation"; a validated fix is in c06_proposed_fix.h.
+//
+// Not claimed: matrices with a subnormal entry next to O(1) entries (the literal 1-ulp perturbation of a zero):
+// there the no-inf/NaN clause is applied only inside the accuracy domain, because Gauss-Jordan divides by that
+// subnormal when the rest of the pivot cancels exactly (cond between 1/eps and 1/eps^2) - e.g. the float matrix
+// [-3.9990234375 -4 -1.4e-45 | -3.99951171875 -4.00048828125 0 | 0 1 1], cond 1.3e8, gives inf/NaN.  This is
+// outside "entries in a bounded dynamic range" and is reported separately, not checked.
 //
 // Domain ("finite, moderately scaled"): entries are kept in a range where the N-fold products formed by
 // the determinant paths cannot overflow or underflow: row/column scales 2^+-20 or global scales 2^+-25
@@ -59,7 +71,8 @@ static Meas g_meas;
 #define MEAS(key, r) ((void) 0)
 #endif
 
-// measured worst ratios max|X-X*| / (cond*eps*max|X*|), float / double, 1e7 matrices per sub-check (seed 5):
+// measured worst ratios max|X-X*| / (cond*eps*max|X*|), float / double, 1e7 matrices per sub-check (seed 5),
+// failures with the key inverse-cofactor3x3-det-cancellation (see check_matrix) excluded:
 //   inverse 2x2 1.09 / 1.15     inverse 3x3 cofactor 5.09 / 4.15   inverse 3x3 affine 0.94 / 1.03
 //   inverse 4x4 affine 2.04 / 3.92   gjInverse 3x3 0.67 / 0.73   gjInverse 4x4 (= inverse 4x4 general) 0.70 / 0.66
 // (DESIGN.md quotes 7.6 for the 3x3 cofactor path with a different generator.)  K = 32 is 6x the worst seen here.
@@ -92,9 +105,10 @@ enum Cls
     C_RANKDEF,    // rounded sum of 1..K-1 outer products: numerically rank deficient
     C_PIVOT,      // permuted upper-triangular (+ optional tiny sub-diagonal noise): every elimination step must swap
     C_DETNEAR1,   // scaled so that |det| is in [1/2,2]: both sides of the |r| >= 1 branch
+    C_NEARRANK1,  // rank one plus a full-rank perturbation of size 2^-p: two small singular values
     C_NCLS
 };
-static const char* cls_name[] = { "int", "well", "rowscaled", "neardep", "singular_lattice", "zero_rowcol", "dup_row", "rankdef", "pivot", "det_near_1" };
+static const char* cls_name[] = { "int", "well", "rowscaled", "neardep", "singular_lattice", "zero_rowcol", "dup_row", "rankdef", "pivot", "det_near_1", "near_rank_1" };
 
 enum
 {
@@ -120,7 +134,7 @@ enum
     L_TWIN_DENORMAL
 };
 #define C06_LABELS                                                                                                   \
-    "int", "well", "rowscaled", "neardep", "singular_lattice", "zero_rowcol", "dup_row", "rankdef", "pivot", "det_near_1", "affine_last_column", "affine_perturbed_1ulp", "semi_affine",   \
+    "int", "well", "rowscaled", "neardep", "singular_lattice", "zero_rowcol", "dup_row", "rankdef", "pivot", "det_near_1", "near_rank_1", "affine_last_column", "affine_perturbed_1ulp", "semi_affine",   \
         "global_scale", "accuracy_checked", "finite_checked", "det_form_identity_required", "gj_identity_required", "cond_lt_10", "cond_lt_1e3", "cond_lt_1/(K eps)", "cond_lt_1/eps^2", \
         "cond_ge_1/eps^2", "oracle_singular", "absdet_ge_1", "absdet_lt_1", "some_form_returned_identity", "affine_with_negative_zero", "twin_perturbed_by_smallest_subnormal"
 
@@ -310,6 +324,22 @@ template <class T> static void gen_core (vp::Ctx& c, int K, T a[4][4], int cls, 
                     a[perm[i]][j] = u[i][j];
             break;
         }
+        case C_NEARRANK1:
+        {
+            int p = (int) s.range (2, mant - 6);
+            T   u[4], v[4];
+            for (int i = 0; i < K; ++i)
+            {
+                u[i] = (T) s.uniform (1.0, 2.0);
+                v[i] = (T) s.uniform (1.0, 2.0);
+                if (s.coin ()) u[i] = -u[i];
+                if (s.coin ()) v[i] = -v[i];
+            }
+            for (int i = 0; i < K; ++i)
+                for (int j = 0; j < K; ++j)
+                    a[i][j] = (T) ((double) u[i] * (double) v[j] + std::ldexp (s.uniform (-1.0, 1.0), -p));
+            break;
+        }
         default: // C_DETNEAR1
         {
             well ();
@@ -456,6 +486,9 @@ template <class T, int N, class M> static inline bool all_finite (const M& x)
     return true;
 }
 
+// does inverse() use the 3x3 cofactor expansion for this matrix?
+static inline bool cofactor3 (int N, bool affine_exact) { return (N == 3 && !affine_exact) || (N == 4 && affine_exact); }
+
 template <int N> struct Exact
 {
     bool  ok = false; // exact inverse available
@@ -541,6 +574,36 @@ static void check_matrix (vp::Ctx& c, const typename MT_<T, N>::M& M, const Flag
         quad d = max_diff<N> (X, E.X);
         MEAS (std::string (pathname) + "/" + tn, d / (E.cond * eps * E.maxX));
         MEAS (std::string (pathname) + "/" + tn + "/" + which, d / (E.cond * eps * E.maxX));
+        if (!(d <= E.bound) && cofactor3 (N, affine_exact))
+        {
+            // Candidate genuine defect (not in DESIGN.md section 6): the 3x3 cofactor expansion (Matrix33 general
+            // path, Matrix44 affine path) loses the determinant to cancellation when the matrix has TWO small
+            // singular values (near rank one): the rounding error of the expansion is eps*sum|products| while
+            // |det| = s1*s2*s3, so the result is off by eps*(sum|products|/|det|)*|X*|, a factor ~s1/s2 above
+            // the promised cond*eps*|X*|.  A failure that this model explains gets its own key; anything larger
+            // keeps the strict key below.
+            QM<3> blk;
+            quad  tn1 = 0, mc = 0;
+            for (int i = 0; i < 3; ++i)
+                for (int j = 0; j < 3; ++j)
+                    blk.a[i][j] = q[i][j];
+            for (int i = 0; i < 3; ++i)
+                for (int j = 0; j < 3; ++j)
+                {
+                    int i0 = (i + 1) % 3, i1 = (i + 2) % 3, j0 = (j + 1) % 3, j1 = (j + 2) % 3;
+                    mc     = qmax (mc, qabs (blk[i0][j0] * blk[i1][j1]) + qabs (blk[i0][j1] * blk[i1][j0]));
+                }
+            if (N == 4)
+                for (int j = 0; j < 3; ++j)
+                    tn1 += qabs (q[N - 1][j]);
+            quad sd;
+            quad dt    = qabs (det (blk, &sd));
+            quad rho   = (quad) C06_K * eps * sd / dt; // relative error the expansion can make in the determinant
+            quad model = (1 + tn1) * (quad) C06_K * eps * ((sd / dt) * E.maxX + mc / dt) * 2 + E.bound;
+            // rho >= 1/2: the computed determinant has no correct digit (it may even be 0 -> "singular" -> identity)
+            if (rho >= (quad) 0.5 || d <= model)
+                VP_FAIL (c, "inverse-cofactor3x3-det-cancellation", tn << " " << which << ": inverse() = " << mstr (X, N) << " differs from the exact inverse by " << qstr (d) << " > " << C06_K << "*cond*eps*max|X*| = " << qstr (E.bound) << " (cond " << qstr (E.cond) << ", max|X*| " << qstr (E.maxX) << "); the 3x3 cofactor determinant has sum|products|/|det| = " << qstr (sd / dt) << " >> cond");
+        }
         VP_REQUIRE (c, d <= E.bound, std::string (pathname) + "-accuracy", tn << " " << which << ": inverse() = " << mstr (X, N) << " differs from the exact inverse by " << qstr (d) << " > " << C06_K << "*cond*eps*max|X*| = " << qstr (E.bound) << " (cond " << qstr (E.cond) << ", max|X*| " << qstr (E.maxX) << ")");
         // residuals (guards the oracle as well): |M X - I| <= |M|_inf * bound, |X M - I| <= bound * |M|_1
         QM<N> qx = QM<N>::from (X);
@@ -665,8 +728,8 @@ template <class T, int N> static void inverse_case (vp::Ctx& c)
     }
 }
 
-#define C06_RULE "classes: small integers, uniform(-4,4), rows/columns scaled 2^+-20, nearly dependent row (noise 2^-3..2^-mantissa), singular integer lattice, zero row/column, power-of-two multiple rows, rounded rank-deficient, permuted triangular (forced pivoting), |det| in [1/2,2]; x optional affine embedding (translation zero/int/small/large), 1-ulp perturbed twin, single replaced last-column entry; x optional global scale; oracle = pivoted Gauss-Jordan in __float128; non-trivial = cond > 10 or a (near-)singular class or an affine / perturbed case"
-#define C06_REQ "accuracy_checked", "finite_checked", "det_form_identity_required", "cond_lt_10", "cond_lt_1e3", "cond_lt_1/(K eps)", "cond_lt_1/eps^2", "cond_ge_1/eps^2", "oracle_singular", "absdet_ge_1", "absdet_lt_1", "some_form_returned_identity", "int", "well", "rowscaled", "neardep", "singular_lattice", "zero_rowcol", "dup_row", "rankdef", "pivot", "det_near_1"
+#define C06_RULE "classes: small integers, uniform(-4,4), rows/columns scaled 2^+-20, nearly dependent row (noise 2^-3..2^-mantissa), singular integer lattice, zero row/column, power-of-two multiple rows, rounded rank-deficient, permuted triangular (forced pivoting), |det| in [1/2,2], rank one + 2^-p perturbation; x optional affine embedding (translation zero/int/small/large), 1-ulp perturbed twin, single replaced last-column entry; x optional global scale; oracle = pivoted Gauss-Jordan in __float128; non-trivial = cond > 10 or a (near-)singular class or an affine / perturbed case"
+#define C06_REQ "accuracy_checked", "finite_checked", "det_form_identity_required", "cond_lt_10", "cond_lt_1e3", "cond_lt_1/(K eps)", "cond_lt_1/eps^2", "cond_ge_1/eps^2", "oracle_singular", "absdet_ge_1", "absdet_lt_1", "some_form_returned_identity", "int", "well", "rowscaled", "neardep", "singular_lattice", "zero_rowcol", "dup_row", "rankdef", "pivot", "det_near_1", "near_rank_1"
 #define C06_REQ34 "affine_last_column", "affine_perturbed_1ulp", "semi_affine", "gj_identity_required", "affine_with_negative_zero", "global_scale"
 
 VP_RANDOM (inv22_f, 1500000, 20000000, "Matrix22<float> inverse/invert (+singExc=false forms); " C06_RULE) { inverse_case<float, 2> (c); }
